@@ -16,8 +16,13 @@ fn assert_send_sync<T: Send + Sync>() {}
 
 /// does the source mention the identifier `k`?
 fn mentions_k(src: &str) -> bool {
+    mentions(src, b'k')
+}
+
+/// does the source mention the one-letter identifier `name`?
+fn mentions(src: &str, name: u8) -> bool {
     let b = src.as_bytes();
-    (0..b.len()).any(|i| b[i] == b'k' && (i == 0 || !(b[i - 1].is_ascii_alphanumeric() || b[i - 1] == b'_' || b[i - 1] == b'\'' || b[i - 1] == b'.')) && (i + 1 == b.len() || !(b[i + 1].is_ascii_alphanumeric() || b[i + 1] == b'_' || b[i + 1] == b'\'')))
+    (0..b.len()).any(|i| b[i] == name && (i == 0 || !(b[i - 1].is_ascii_alphanumeric() || b[i - 1] == b'_' || b[i - 1] == b'\'' || b[i - 1] == b'.')) && (i + 1 == b.len() || !(b[i + 1].is_ascii_alphanumeric() || b[i + 1] == b'_' || b[i + 1] == b'\'')))
 }
 
 /// programs are told apart by their position's expected answer and index of first occurrence
@@ -82,6 +87,26 @@ fn main() {
                                 };
                                 if got != want {
                                     *bad.lock().unwrap() = Some(format!("thread {t} round {r} program {i}: {got} instead of {want}"));
+                                }
+                            }
+                            // a scope that has already been used is still an ordinary scope: a name that
+                            // was read through the root a moment ago and is now bound here denotes the
+                            // new binding, exactly as in a freshly built scope with the same bindings
+                            if r % 5 == 0 {
+                                let rebound = Value::Int(70 + (t as i64));
+                                inner.add_variable_from_value("n", rebound.clone());
+                                let mut fresh = root.new_inner_scope();
+                                fresh.add_variable_from_value("thread_local", Value::Int((t * 1000 + r) as i64));
+                                fresh.add_variable_from_value("k", Value::Int((t * 7 + r) as i64 % 11));
+                                fresh.add_variable_from_value("n", rebound);
+                                for i in 0..progs.len() {
+                                    if mentions(srcs_ok[i], b'n') {
+                                        let got = result_to_sx(&progs[i].execute(&inner)).to_text();
+                                        let want = result_to_sx(&progs[i].execute(&fresh)).to_text();
+                                        if got != want {
+                                            *bad.lock().unwrap() = Some(format!("thread {t} round {r} program {i}: after `n` was re-bound in the scope the program had already run in, it yields {got}; in a fresh scope with the same bindings {want}"));
+                                        }
+                                    }
                                 }
                             }
                         }
@@ -178,6 +203,35 @@ fn host_function_phase(threads: usize, rounds: usize) {
                 bad = Some(format!("`{s}` yields {e} instead of {}", want[i]));
             }
         }
+        // the same executions from a call site several MiB further down the native stack (on a
+        // thread that has executed from a shallow one before): same results
+        {
+            fn deep<R>(n: usize, f: &mut dyn FnMut() -> R) -> R {
+                let pad = [n as u8; 64 * 1024];
+                let r = if n == 0 { f() } else { deep(n - 1, f) };
+                std::hint::black_box(&pad);
+                r
+            }
+            let table = &table;
+            let root = &root;
+            let verdict = std::thread::scope(|sc| {
+                std::thread::Builder::new().stack_size(96 << 20).spawn_scoped(sc, move || {
+                    let mut out: Option<String> = None;
+                    for (s, p, e) in table.iter() {
+                        let shallow = result_to_sx(&p.execute(root)).to_text();
+                        let far = deep(64, &mut || result_to_sx(&p.execute(root)).to_text());
+                        let again = result_to_sx(&p.execute(root)).to_text();
+                        if &shallow != e || &far != e || &again != e {
+                            out = Some(format!("`{s}` yields {shallow} from a shallow call site, {far} from one 4 MiB further down the stack, {again} afterwards; alone it yields {e}"));
+                        }
+                    }
+                    out
+                }).unwrap().join().unwrap_or(Some("the deep-stack execution thread died".into()))
+            });
+            if verdict.is_some() {
+                bad = verdict;
+            }
+        }
         let bomb = Program::compile("boom(13)").unwrap();
         let bad = Mutex::new(bad);
         let (root, table, bomb) = (&root, &table, &bomb);
@@ -211,6 +265,31 @@ fn host_function_phase(threads: usize, rounds: usize) {
                             if got != *e {
                                 *bad.lock().unwrap() = Some(format!("thread {t} round {r}: `{s}` yields {got} instead of {e} (after / beside executions whose host function panicked or re-entered itself)"));
                             }
+                        }
+                    }
+                });
+            }
+        });
+        // a burst of panicking executions on all threads at once (each with its own message): what
+        // comes back to a thread - a panic or, should the interpreter ever turn panics into errors,
+        // that error - names its own execution's value, never another thread's
+        std::thread::scope(|sc| {
+            for t in 0..threads.max(2).max(8) {
+                let bad = &bad;
+                sc.spawn(move || {
+                    let inner = root.new_inner_scope();
+                    let own = 100 + t as i64;
+                    let mine = Program::compile(&format!("[{own}].map(v, boom(v))")).unwrap();
+                    for r in 0..400 {
+                        let text = match std::panic::catch_unwind(std::panic::AssertUnwindSafe(|| mine.execute(&inner))) {
+                            Ok(Ok(v)) => format!("value {v:?}"),
+                            Ok(Err(e)) => format!("error {e} / {e:?}"),
+                            Err(p) => format!("panic {}", p.downcast_ref::<String>().cloned().or_else(|| p.downcast_ref::<&str>().map(|s| s.to_string())).unwrap_or_default()),
+                        };
+                        let foreign = (100..100 + threads.max(8) as i64).any(|o| o != own && text.contains(&format!("<{o}>")));
+                        if !text.contains(&format!("<{own}>")) || foreign {
+                            *bad.lock().unwrap() = Some(format!("thread {t} iteration {r} of the panic burst: `[{own}].map(v, boom(v))`, whose host function panics with a message naming <{own}>, came back as: {text}"));
+                            break;
                         }
                     }
                 });
